@@ -109,7 +109,7 @@ func init() {
 		QuickS: 40, ThorS: 600,
 		Rule: "directory populations (layouts, kinds, sizes, duplicates, lost+found), access-time permutations, max_size relative to the total and the storage mode are generated from VERIF_SEED; a run is non-trivial if the directory held at least one file and (an eviction happened at start-up or a legacy layout was migrated or a preemption occurred); distinct = distinct schedule/outcome hash"})
 	props = append(props, &propSpec{ID: "C02", Level: "exploration", Clauses: []string{"C02."},
-		Scens:  []scenSpec{{Name: "read", Weight: 3}, {Name: "conc", Opt: map[string]string{"prestored": "1"}, Weight: 2}, {Name: "backend", Weight: 1}},
+		Scens:  []scenSpec{{Name: "read", Weight: 3}, {Name: "conc", Opt: map[string]string{"prestored": "1"}, Weight: 2}, {Name: "backend", Opt: map[string]string{"faults": "0", "reads": "1"}, Weight: 2}},
 		QuickS: 40, ThorS: 600, Rule: ruleCommon})
 	props = append(props, &propSpec{ID: "C05", Level: "exploration", Clauses: []string{"C05."},
 		Scens:  []scenSpec{{Name: "lru", Weight: 1}},
